@@ -22,6 +22,7 @@ EXPLANATION = (
     "arity / keyword compatible; (f) parallel and sequential branches apply the same function to the same job list, and "
     "that list is the whole source only under `selection is None`."
     ' (g) The lazy accessors Job.document / Job.stores initialise without validation, so evaluating dst.document in a dry run cannot write a state point file.'
+    ' (i) Every path of Job.init to a write has validate_statepoint true or has seen os.path.isdir(self.path) fail (propositional reasoning over the branch facts).'
 )
 UNDECIDED = "That parallel and sequential runs leave identical destination trees, and what a dry run prints, are not decided."
 
